@@ -1,47 +1,12 @@
 #pragma once
 // lfu_cache / lfuda_cache: list<element> partitioned at m_open_list_end + unordered_map<key, list iterator>
 // + multimap<use count, list iterator>
-#include <optional>
-#include <cappuccino/allow.hpp>
-#include <cappuccino/lock.hpp>
-#include <cappuccino/peek.hpp>
-#ifndef T_RATIO4
-#define T_RATIO4 2 /* lfuda ratio = T_RATIO4 / 4 */
-#endif
 #ifdef C_IS_LFUDA
-#include <cappuccino/lfuda_cache.hpp>
-#define CL m_dynamic_age_list
-#define T_NAME "lfuda"
-#define T_POLICY P_LFUDA
-#define T_HAS_AGE 1
-using C = cappuccino::lfuda_cache<uint64_t, uint64_t, cappuccino::thread_safe::TS>;
-#define DECL_C(c) C c(HCAP, std::chrono::milliseconds{5}, T_RATIO4 / 4.0f)
+#include "api_lfuda.hpp"
 #else
-#include <cappuccino/lfu_cache.hpp>
-#define CL m_open_list
-#define T_NAME "lfu"
-#define T_POLICY P_LFU
-#define T_HAS_AGE 0
-using C = cappuccino::lfu_cache<uint64_t, uint64_t, cappuccino::thread_safe::TS>;
-#define DECL_C(c) C c(HCAP)
+#include "api_lfu.hpp"
 #endif
 #include "vf_inv.hpp"
-#include "abs.hpp"
-#define T_TTL 0
-#define T_PEEK 1
-#define T_CAPPED 1
-#define T_PURGE 0
-#define T_HAS_CLEAN 0
-#define T_HAS_CLEAR 0
-#define T_HAS_UPDTTL 0
-using TP = std::chrono::steady_clock::time_point;
-static inline int64_t tp_i(TP t) { return t.time_since_epoch().count(); }
-static inline TP      i_tp(int64_t x) { return TP(std::chrono::steady_clock::duration(x)); }
-extern int64_t        last_now;
-// value-range bound of the claim: use counts below 2^16 (an assumption on the pre-state, never an invariant conjunct)
-#define ASSUME_BOUNDS(c, pre)                                                                                          \
-    for (size_t p_ = 0; p_ < AMAX; ++p_)                                                                               \
-    __vf_assume((pre).cnt[p_] < (1u << 16))
 
 template<class S>
 static void install(C& c, S& s)
@@ -137,6 +102,9 @@ static void alpha(C& c, Abs& a)
     a_clear(a);
     auto& L  = c.CL;
     a.n      = c.m_used_size;
+#ifdef C_IS_LFUDA
+    a.tick = c.m_dynamic_age_tick.count();
+#endif
     size_t t = c.m_lfu_list.m_first;
     for (size_t p = 0; p < HCAP; ++p)
     {
@@ -155,20 +123,4 @@ static void alpha(C& c, Abs& a)
             t = nd.next;
         }
     }
-}
-static bool x_insert(C& c, uint64_t k, uint64_t v, uint8_t a, int64_t) { return c.insert(k, v, (cappuccino::allow)a); }
-static bool x_erase(C& c, uint64_t k) { return c.erase(k); }
-static void x_find(C& c, uint64_t k, bool pk, Res& r)
-{
-    auto o = c.find_with_use_count(k, pk);
-    r.ok   = o.has_value();
-    r.val  = r.ok ? (*o).first : 0;
-    r.cnt  = r.ok ? (*o).second : 0;
-}
-static void x_find_plain(C& c, uint64_t k, bool pk, Res& r)
-{
-    auto o = c.find(k, pk);
-    r.ok   = o.has_value();
-    r.val  = r.ok ? *o : 0;
-    r.cnt  = 0;
 }
